@@ -486,11 +486,33 @@ func (x *Exec) loopHeader(f *Frame, st *State, b *ssa.BasicBlock, prev *ssa.Basi
 	if touchesWorld {
 		top := x.unit.Contract
 		st.world = st.world.clone()
-		if top.ModAll {
+		// only what the loop body can write is havocked (write-set analysis over the body and its callees; a call
+		// through a function value is resolved through the frames' registers; any doubt => everything in modifies)
+		resolve := func(v ssa.Value) *ssa.Function {
+			for g := f; g != nil; g = g.parent {
+				if cv, ok := g.regs[v].(*ClosureVal); ok {
+					return cv.Fn
+				}
+				if fv, ok := g.regs[v].(*FuncVal); ok {
+					return fv.Fn
+				}
+			}
+			return nil
+		}
+		var ws map[string]bool
+		wsOK := false
+		if os.Getenv("GOVC_NOWRITESET") == "" {
+			ws, wsOK = x.prog.loopWrites(body, resolve)
+		}
+		if top.ModAll && !wsOK {
 			st.world = st.world.havocAll(x)
+		} else if top.ModAll {
+			for m := range ws {
+				st.world.havoc(x, m)
+			}
 		} else {
 			for _, m := range top.Modifies {
-				if !strings.HasPrefix(m, "*") {
+				if !strings.HasPrefix(m, "*") && (!wsOK || ws[m]) {
 					st.world.havoc(x, m)
 				}
 			}
